@@ -21,6 +21,7 @@ mod c12;
 mod c14;
 mod c15;
 mod c16;
+mod c17;
 mod c18;
 mod c19;
 mod c20;
@@ -54,6 +55,7 @@ fn main() {
         "C20" => c20::run_c20(&mut out, &mut rng, tier),
         "C19" => c19::run_c19(&mut out, &mut rng, tier),
         "C16" => c16::run_c16(&mut out, &mut rng, tier),
+        "C17" => c17::run_c17(&mut out, &mut rng, tier),
         "C18" => c18::run_c18(&mut out, &mut rng, tier),
         "C13" => c04::run_c13(&mut out, &mut rng, tier),
         "C05" => c05::run_c05(&mut out, &mut rng, tier),
